@@ -165,7 +165,7 @@ Theorem typed_calls_are_insert_sorted cfg l id o :
 Proof.
   unfold cfg_goodb. intros Hc Hs Hg.
   repeat (apply andb_true_iff in Hc as [Hc ?]).
-  destruct o as [| | | | | |cn|c|]; cbn [step_cfg step_ref op_class]; try reflexivity.
+  destruct o as [| | | | | |ca|cn|c|]; cbn [step_cfg step_ref op_class]; try reflexivity.
   - eapply place_good_sound; eauto using no_gen_five.
   - eapply place_good_sound; eauto using no_gen_five.
   - match goal with H : fmt_clears_first cfg = true |- _ => rewrite H end.
@@ -174,6 +174,8 @@ Proof.
     eapply place_good_sound; eauto using clear_sorted, clear_fmt_four.
   - eapply place_good_sound; eauto using no_gen_five.
   - eapply place_good_sound; eauto using no_gen_five.
+  - destruct ca; cbn [step_cfg step_ref op_class]; try reflexivity;
+      eapply place_good_sound; eauto using no_gen_five.
 Qed.
 
 (* ---- the reference step keeps the list sorted and free of generic handlers ---- *)
@@ -198,11 +200,14 @@ Proof.
 Qed.
 Lemma step_ref_sorted l id o : sorted l -> sorted (step_ref l id o).
 Proof.
-  intros Hs. destruct o; cbn [step_ref op_class]; auto using insert_sorted_ok, clear_sorted. constructor.
+  intros Hs. destruct o as [| | | | | |ca|cn|c|]; cbn [step_ref op_class]; auto using insert_sorted_ok, clear_sorted.
+  - destruct ca; auto using insert_sorted_ok.
+  - constructor.
 Qed.
 Lemma step_ref_no_gen l id o : no_gen l -> no_gen (step_ref l id o).
 Proof.
-  intros Hg. destruct o; cbn [step_ref op_class]; try (apply insert_no_gen; [discriminate|]);
+  intros Hg. destruct o as [| | | | | |ca|cn|c|]; cbn [step_ref op_class];
+    try (destruct ca; cbn; try exact Hg); try (apply insert_no_gen; [discriminate|]);
     auto using clear_no_gen. constructor.
 Qed.
 
@@ -268,7 +273,7 @@ Proof.
   { intros c'. destruct (cls_eqb c c') eqn:E.
     - apply cls_eqb_eq in E. subst c'. apply of_class_insert_same, Hs.
     - apply of_class_insert_other. cbn. apply cls_eqb_neq in E. congruence. }
-  destruct o as [| | | | | |cn|c'|]; cbn [step_ref log_step op_class]; try apply Hins.
+  destruct o as [| | | | | |ca|cn|c'|]; cbn [step_ref log_step op_class]; try apply Hins.
   - destruct (cls_eqb c Fmt) eqn:E.
     + apply cls_eqb_eq in E. subst c. rewrite of_class_insert_same by (apply clear_sorted, Hs).
       rewrite of_class_clear_same. reflexivity.
@@ -279,6 +284,7 @@ Proof.
       rewrite of_class_clear_same. reflexivity.
     + apply cls_eqb_neq in E. rewrite of_class_insert_other by (cbn; congruence).
       apply of_class_clear_other, E.
+  - destruct ca; cbn [step_ref log_step op_class]; try reflexivity; apply Hins.
   - reflexivity.
   - destruct (cls_eqb c c') eqn:E.
     + apply cls_eqb_eq in E. subst c'. apply of_class_clear_same.
@@ -314,7 +320,7 @@ Proof.
 Qed.
 
 (* ---- theorem 2: a complete characterisation of the list after any history ---- *)
-Fixpoint run_ref_from (l : list hnd) (lastf : option nat) (id : nat) (ops : list op) : list hnd :=
+Fixpoint run_ref_from (l : list hnd) (lastf : lasts) (id : nat) (ops : list op) : list hnd :=
   match ops with
   | [] => l
   | o :: t => run_ref_from (step_ref l (hid lastf id o) o) (next_lastf lastf id o) (S id) t
@@ -346,7 +352,7 @@ Proof.
   intros Hc. unfold run_cfg, spec_list, class_log.
   assert (Hs : sorted []) by constructor. assert (Hg : no_gen []) by constructor.
   rewrite run_from_is_ref by assumption.
-  destruct (run_ref_inv ops [] None 0 Hs Hg) as [Hs' Hg'].
+  destruct (run_ref_inv ops [] no_lasts 0 Hs Hg) as [Hs' Hg'].
   rewrite (sorted_decomp _ Hs' Hg') at 1.
   rewrite !run_ref_class by exact Hs. reflexivity.
 Qed.
@@ -359,55 +365,95 @@ Qed.
 
 (* ---- the class logs: insertion order, at most one formatter ---- *)
 Definition ids_below (n : nat) (l : list hnd) : Prop := Forall (fun y => snd y < n) l.
-Lemma ids_increasing_snoc l x : ids_increasing l = true -> ids_below (snd x) l -> ids_increasing (l ++ [x]) = true.
+(* the identity an operation inserts is the fresh one, or the recorded last object of its class *)
+Lemma hid_cases lastf id o :
+  hid lastf id o = id \/ (exists c, op_class o = Some c /\ lastf c = Some (hid lastf id o)).
+Proof.
+  unfold hid. destruct o as [| | | | | |ca|cn|c'|]; cbn [again_class op_class]; auto.
+  - destruct (lastf Fmt) as [f|] eqn:E; [right; exists Fmt; auto|auto].
+  - destruct ca; auto;
+      match goal with |- context [lastf ?k] => destruct (lastf k) as [f|] eqn:E end; auto;
+      right; eexists; (split; [reflexivity|exact E]).
+Qed.
+Definition LInv (c : cls) (lg : list hnd) (lastf : lasts) (id : nat) : Prop :=
+  ids_increasing lg = true /\ ids_below id lg /\ (forall c' f, lastf c' = Some f -> f < id)
+  /\ Forall (fun y => exists f, lastf c = Some f /\ snd y <= f) lg.
+Lemma ids_increasing_snoc_le l x : ids_increasing l = true -> Forall (fun y => snd y <= snd x) l ->
+  ids_increasing (l ++ [x]) = true.
 Proof.
   induction l as [|a t IH]; intros Hi Hb; [reflexivity|].
   inversion Hb as [|? ? Ha Hbt]; subst. cbn [app ids_increasing] in *.
   apply andb_true_iff in Hi as [H1 H2]. rewrite (IH H2 Hbt), andb_true_r.
-  destruct t as [|b t]; cbn [app]; [apply Nat.ltb_lt, Ha|exact H1].
+  destruct t as [|b t]; cbn [app]; [apply Nat.leb_le, Ha|exact H1].
 Qed.
-Lemma hid_le lastf id o : (forall f, lastf = Some f -> f < id) -> hid lastf id o <= id.
-Proof. intros H. destruct o, lastf as [f|]; cbn; try lia. specialize (H f eq_refl). lia. Qed.
-Lemma hid_fresh lastf id o : op_class o <> Some Fmt -> hid lastf id o = id.
-Proof. destruct o, lastf; cbn; congruence. Qed.
-Lemma log_step_inv c lg id h o : h <= id -> (op_class o <> Some Fmt -> h = id) ->
-  ids_increasing lg = true -> ids_below id lg ->
-  ids_increasing (log_step c lg h o) = true /\ ids_below (S id) (log_step c lg h o).
+Lemma cls_eqb_true_eq a b : cls_eqb a b = true -> a = b.
+Proof. apply cls_eqb_eq. Qed.
+Lemma linv_step c lg lastf id o : LInv c lg lastf id ->
+  LInv c (log_step c lg (hid lastf id o) o) (next_lastf lastf id o) (S id).
 Proof.
-  intros Hh Hfresh Hi Hb.
+  intros (Hi & Hb & Hl & Hm). set (h := hid lastf id o).
+  assert (Hh : h <= id).
+  { destruct (hid_cases lastf id o) as [E|(c0 & _ & E)]; fold h in E; [lia|]. specialize (Hl _ _ E). lia. }
   assert (Hb' : ids_below (S id) lg).
   { unfold ids_below in *. rewrite Forall_forall in *. intros y Hy. specialize (Hb y Hy). lia. }
-  assert (Hsn : h = id -> ids_increasing (lg ++ [(c, h)]) = true /\ ids_below (S id) (lg ++ [(c, h)])).
-  { intros ->. split; [apply ids_increasing_snoc; assumption|]. apply Forall_app. split; [exact Hb'|].
-    constructor; [cbn; lia|constructor]. }
-  assert (Hnil : ids_increasing [] = true /\ ids_below (S id) []) by (split; [reflexivity|constructor]).
-  assert (Hone : ids_increasing [(Fmt, h)] = true /\ ids_below (S id) [(Fmt, h)]).
-  { split; [reflexivity|]. constructor; [cbn; lia|constructor]. }
-  destruct o as [| | | | | |cn|c'|]; cbn [log_step op_class] in *;
-    try (destruct (cls_eqb c _); [(apply Hsn, Hfresh; discriminate) || exact Hnil || exact Hone|split; assumption]);
-    try exact Hnil; try (split; assumption).
+  (* the lasts after the step stay below S id *)
+  assert (Hl' : forall c' f, next_lastf lastf id o c' = Some f -> f < S id).
+  { intros c' f. unfold next_lastf. destruct (op_class o) as [c0|]; [|intros E; specialize (Hl _ _ E); lia].
+    destruct (cls_eqb c' c0); [intros E; injection E as <-; fold h; lia|intros E; specialize (Hl _ _ E); lia]. }
+  (* old entries are below the new identity whenever the step appends to class c *)
+  assert (Hle : op_class o = Some c -> Forall (fun y => snd y <= h) lg).
+  { intros Ec. destruct (hid_cases lastf id o) as [E|(c0 & Ec0 & E)]; fold h in E.
+    - rewrite E. unfold ids_below in Hb. rewrite Forall_forall in *. intros y Hy. specialize (Hb y Hy). lia.
+    - rewrite Ec in Ec0. injection Ec0 as <-. rewrite Forall_forall in *. intros y Hy.
+      destruct (Hm y Hy) as (f & Ef & Hf). rewrite E in Ef. injection Ef as <-. exact Hf. }
+  (* the recorded last object of class c after the step *)
+  assert (Hn_same : op_class o = Some c -> next_lastf lastf id o c = Some h).
+  { intros Ec. unfold next_lastf. rewrite Ec, cls_eqb_refl. reflexivity. }
+  assert (Hn_other : op_class o <> Some c -> next_lastf lastf id o c = lastf c).
+  { intros Ec. unfold next_lastf. destruct (op_class o) as [c0|]; [|reflexivity].
+    destruct (cls_eqb c c0) eqn:E; [|reflexivity]. apply cls_eqb_eq in E. subst c0. congruence. }
+  assert (Hkeep : op_class o <> Some c -> LInv c lg (next_lastf lastf id o) (S id)).
+  { intros Ec. repeat split; try assumption. rewrite (Hn_other Ec). exact Hm. }
+  assert (Hnil : LInv c [] (next_lastf lastf id o) (S id)).
+  { repeat split; try assumption; constructor. }
+  assert (Hsnoc : op_class o = Some c -> LInv c (lg ++ [(c, h)]) (next_lastf lastf id o) (S id)).
+  { intros Ec. specialize (Hle Ec). repeat split; try assumption.
+    - apply ids_increasing_snoc_le; [exact Hi|exact Hle].
+    - apply Forall_app. split; [exact Hb'|]. constructor; [cbn; lia|constructor].
+    - apply Forall_app. split.
+      + rewrite Forall_forall in *. intros y Hy. exists h. split; [apply Hn_same, Ec|apply Hle, Hy].
+      + constructor; [|constructor]. exists h. split; [apply Hn_same, Ec|cbn; lia]. }
+  assert (Hone : op_class o = Some Fmt -> c = Fmt -> LInv c [(Fmt, h)] (next_lastf lastf id o) (S id)).
+  { intros Ec ->. repeat split; try assumption.
+    - constructor; [cbn; lia|constructor].
+    - constructor; [|constructor]. exists h. split; [apply Hn_same, Ec|cbn; lia]. }
+  destruct o as [| | | | | |ca|cn|c'|]; cbn [log_step op_class] in *;
+    try (destruct (cls_eqb c _) eqn:E;
+         [apply cls_eqb_true_eq in E; subst; first [apply Hsnoc; reflexivity | apply Hone; reflexivity | exact Hnil]
+         |apply cls_eqb_neq in E; apply Hkeep; congruence]);
+    try exact Hnil; try (apply Hkeep; discriminate).
+  (* AppendAgain ca *)
+  destruct ca; cbn [log_step op_class] in *;
+    try (apply Hkeep; discriminate);
+    (destruct (cls_eqb c _) eqn:E;
+      [apply cls_eqb_true_eq in E; subst; apply Hsnoc; reflexivity
+      |apply cls_eqb_neq in E; apply Hkeep; congruence]).
 Qed.
-Lemma next_lastf_below lastf id o : (forall f, lastf = Some f -> f < id) ->
-  forall f, next_lastf lastf id o = Some f -> f < S id.
+Lemma log_from_inv c : forall ops lg lastf id, LInv c lg lastf id ->
+  ids_increasing (log_from c lg lastf id ops) = true.
 Proof.
-  intros H f E. assert (Hl := hid_le lastf id o H).
-  destruct o; cbn [next_lastf] in E; try (specialize (H f E); lia); injection E as <-;
-    cbn [hid] in *; destruct lastf as [g|]; try specialize (H g eq_refl); lia.
-Qed.
-Lemma log_from_inv c : forall ops lg lastf id, (forall f, lastf = Some f -> f < id) ->
-  ids_increasing lg = true -> ids_below id lg -> ids_increasing (log_from c lg lastf id ops) = true.
-Proof.
-  induction ops as [|o ops IH]; intros lg lastf id Hf Hi Hb; [exact Hi|].
-  cbn [log_from].
-  destruct (log_step_inv c lg id (hid lastf id o) o (hid_le _ _ _ Hf) (hid_fresh _ _ _) Hi Hb) as [H1 H2].
-  apply IH; [apply next_lastf_below, Hf|assumption|assumption].
+  induction ops as [|o ops IH]; intros lg lastf id H; [exact (proj1 H)|].
+  cbn [log_from]. apply IH, linv_step, H.
 Qed.
 Theorem class_log_in_insertion_order c ops : ids_increasing (class_log c ops) = true.
-Proof. apply log_from_inv; [discriminate|reflexivity|constructor]. Qed.
+Proof.
+  apply log_from_inv. repeat split; try constructor. intros c' f E. discriminate.
+Qed.
 
 Lemma fmt_log_step lg id o : length lg <= 1 -> length (log_step Fmt lg id o) <= 1.
 Proof.
-  intros H. destruct o as [| | | | | |cn|c'|]; cbn [log_step op_class]; try exact H;
+  intros H. destruct o as [| | | | | |ca|cn|c'|]; cbn [log_step op_class]; try exact H;
+    try (destruct ca; cbn [cls_eqb rank Nat.eqb]; exact H);
     try (destruct (cls_eqb Fmt _); [cbn; lia|exact H]); cbn; lia.
 Qed.
 Lemma fmt_log_from : forall ops lg lastf id, length lg <= 1 -> length (log_from Fmt lg lastf id ops) <= 1.
@@ -420,9 +466,11 @@ Lemma log_from_class c : forall ops lg lastf id, Forall (fun y : hnd => fst y = 
   Forall (fun y : hnd => fst y = c) (log_from c lg lastf id ops).
 Proof.
   induction ops as [|o ops IH]; intros lg lastf id H; [exact H|]. cbn [log_from]. apply IH.
-  destruct o as [| | | | | |cn|c'|]; cbn [log_step op_class]; try (destruct (cls_eqb c _) eqn:E); try exact H;
+  destruct o as [| | | | | |ca|cn|c'|]; cbn [log_step op_class]; try (destruct (cls_eqb c _) eqn:E); try exact H;
     try (apply Forall_app; split; [exact H|constructor; [reflexivity|constructor]]); try constructor;
     try (apply cls_eqb_eq in E; subst c; reflexivity); try constructor.
+  destruct ca; try exact H; (destruct (cls_eqb c _); [|exact H]);
+    apply Forall_app; (split; [exact H|constructor; [reflexivity|constructor]]).
 Qed.
 Lemma class_log_class c ops : Forall (fun y => fst y = c) (class_log c ops).
 Proof. apply log_from_class. constructor. Qed.
